@@ -30,6 +30,11 @@ type Atom struct {
 
 type FloatVal struct{ f float64 }
 
+// U64Val is a concrete unsigned integer beyond the int64 range of the Int
+// terms (yaml.v3 decodes such scalars to uint64); it can be formatted and
+// type-tested, nothing else.
+type U64Val struct{ u uint64 }
+
 type PtrVal struct{ slot *Value } // nil pointer: slot == nil
 
 type StructVal struct{ fields []Value }
